@@ -467,6 +467,9 @@ class Num(Val):
         self.seg = None         # D3 index map (list of segmap.Seg) when the array is a re-arrangement
         self.segax = 0          # axis the index map describes (arrays of rank > 1)
         self.mirror = False     # the vector is the complex conjugate of a spectrum-bearing vector (rows of Vh)
+        self.col0 = None        # for a column slice M[:, a:] / M[:, a] of a matrix: the first column index a
+        self.src_uid = None     # uid of the matrix a column slice was taken from
+        self.neg = False        # the array is the negation of the array it was derived from (unary minus)
         self.tr = False         # matrix is the transpose of the matrix it was derived from (toggled by transpose)
         self.base_uid = None    # uid of the matrix this one was derived from by transpose / conj
         self.q = None           # D4 modulation charge (see charge.py); only maintained when the interpreter runs with d4=True
@@ -496,6 +499,9 @@ class Num(Val):
         n.org = self.org
         n.q = self.q
         n.tr = self.tr
+        n.neg = self.neg
+        n.col0 = self.col0
+        n.src_uid = self.src_uid
         n.base_uid = self.base_uid if self.base_uid is not None else self.uid
         for k, v in kw.items():
             setattr(n, k, v)
